@@ -7,6 +7,9 @@ SHAPES = {
     # `rem` is the ghost "what is still to be read" (data[pos:]), maintained by the model
     "InStream": {"__class__": "Stream", "data": "bytes", "pos": "int", "rem": "bytes",
                  "eof_hit": "bool", "seekable": "bool", "readable": "bool"},
+    # io.StringIO handed to the canonical-form writer
+    "TextOutStream": {"__class__": "TextStream", "data": "str", "pos": "int", "eof_hit": "bool",
+                      "seekable": "bool", "readable": "bool"},
     "BinaryEncoder": {"_fo": "OutStream"},
     # the Writer's in-memory block buffer (BinaryEncoder over a BytesIO)
     "BufferEncoder": {"__class__": "BinaryEncoder", "_fo": "OutStream"},
